@@ -120,6 +120,52 @@ Theorem c40_caller_saved_covers : forall r,
 Proof. exact caller_saved_covers. Qed.
 Print Assumptions c40_caller_saved_covers.
 
+(* ---------------------------------------------------------------- wave 3 *)
+(* with the 8-byte slots the tree now has: every scalar signature, however many integer and floating
+   point arguments overflow the registers (the proof of tab_fp_slot_8 breaks if a slot size changes) *)
+Theorem c40_arg_locations_all : forall tys,
+  map abs_loc (determine_arg_locations tys) = sysv_arg_places (map sty_of tys).
+Proof. exact arg_locations_all. Qed.
+Print Assumptions c40_arg_locations_all.
+
+(* the k-th memory argument, counted left to right over integer and floating point arguments alike,
+   is at 16 + 8k from the callee's rbp: consecutive eightbytes, first one lowest *)
+Theorem c40_stack_args_in_order : forall tys k o,
+  nth_error (stack_offsets (determine_arg_locations tys)) k = Some o -> o = 16 + 8 * Z.of_nat k.
+Proof. exact stack_args_in_order. Qed.
+Print Assumptions c40_stack_args_in_order.
+
+(* by-value aggregates. ppci: every struct argument is an ir blob copied to the stack at its exact
+   size, never in registers (and struct results always go through a hidden pointer parameter).
+   (a) deviates from the psABI for aggregates of class INTEGER/SSE (at most two eightbytes) *)
+Theorem c40_struct_small_refuted :
+  places_x [XB 8] <> sysv_arg_places_x [XAggr 8 [INTEGER]].
+Proof. exact struct_small_refuted. Qed.
+Print Assumptions c40_struct_small_refuted.
+
+(* (b) deviates for class MEMORY aggregates whose size is not a multiple of 8 (no rounding to eightbytes) *)
+Theorem c40_struct_memory_size_refuted :
+  places_x [XB 20; XB 24] <> sysv_arg_places_x [XAggr 20 []; XAggr 24 []].
+Proof. exact struct_memory_size_refuted. Qed.
+Print Assumptions c40_struct_memory_size_refuted.
+
+(* (c) agrees for every mixture of scalars and class MEMORY aggregates of a size divisible by 8 *)
+Theorem c40_struct_memory_args : forall tys, Forall blob_ok tys ->
+  places_x tys = sysv_arg_places_x (map (xsty_of (fun _ => [])) tys).
+Proof. exact places_x_memory. Qed.
+Print Assumptions c40_struct_memory_args.
+
+(* rsp at the call with blobs in the outgoing area: aligned when every blob size is divisible by 8
+   (in particular for any number - odd or even - of 8-byte pushes), not in general: gen_call pads by
+   stack_size % 16 *)
+Theorem c40_call_alignment_blobs : forall tys, Forall blob_ok tys -> (call_rsp_drop_x tys) mod 16 = 0.
+Proof. exact call_alignment_x. Qed.
+Print Assumptions c40_call_alignment_blobs.
+
+Theorem c40_call_alignment_blobs_refuted : (call_rsp_drop_x [XB 4]) mod 16 <> 0.
+Proof. exact call_blob_alignment_refuted. Qed.
+Print Assumptions c40_call_alignment_blobs_refuted.
+
 (* non-vacuity: concrete signatures / frames meet the hypotheses and compute to the expected values *)
 Example c40_nonvacuous :
   map abs_loc (determine_arg_locations [I64; F64; I32; PTR; I8; U16; I64; I64; I32])
@@ -139,5 +185,9 @@ Example c40_nonvacuous :
      = [mkreg "rbx" 3 R64c; mkreg "r15" 15 R64c]
   /\ gen_prologue 20 [mkreg "ebx" 3 R32c; mkreg "r15" 15 R64c]
      = [MLabel; MPush (mkreg "rbp" 5 R64c); MMovFpSp; MSub 32; MPush (mkreg "rbx" 3 R64c); MPush (mkreg "r15" 15 R64c)]
-  /\ entry_aligned 1000 /\ abi_callee_saved (PG 3) = true.
+  /\ entry_aligned 1000 /\ abi_callee_saved (PG 3) = true
+  /\ stack_offsets (determine_arg_locations [I64; I64; I64; I64; I64; I64; I8; F64; F64; F64; F64; F64; F64; F64; F64;
+                                              F32; U16; F64]) = [16; 24; 32; 40]
+  /\ places_x [XT I64; XB 24; XT F64; XB 32] = [XAt (AReg (PG 7)); XInMem 0 24; XAt (AReg (PX 0)); XInMem 24 32]
+  /\ blob_ok (XB 24) /\ call_rsp_drop_x [XB 24; XT I64] = 32.
 Proof. vm_compute. repeat split. Qed.
